@@ -863,10 +863,130 @@ def run_subrace(ctx, rng, job):
         ctx.shape(('subrace', flavour, nthreads), nontrivial=True)
 
 
+def run_mutrace(ctx, rng, job):
+    """Mutation-window race.  One mutator performs registrations / subscriptions under *fresh* provided interfaces
+    (first registration of that interface in the registry: the extendor and reference-count bookkeeping runs) and
+    removes them again, in different members of a chain, with statement-level preemption injected inside the
+    mutation functions; lookup threads hammer the few keys concerned.  Lookup threads: every answer lies in the
+    generation bracket.  Mutator, right after each mutation has *returned*: every registry at or below the mutated one
+    must answer with the new value (an answer computed before the mutation must not have survived in a cache)."""
+    nmut = job.get('mutations', 250)
+    nlook = job.get('lookers', 3)
+    from zope.interface.adapter import AdapterLookupBase, BaseAdapterRegistry
+    for flavour, Base in FLAVOURS.items():
+        mod = util.fresh_module()
+        IR0 = util.mkiface('IR0', module=mod)
+        IP2 = util.mkiface('IP2', module=mod)
+        specs = [util.mkiface('IS%d' % i, (IR0,), module=mod) for i in range(5)]
+        top = Base()
+        reg = Base((top,))
+        sub = Base((reg,))
+        chain = [sub, reg, top]
+        gen = [0]
+        stop = [False]
+        errors = []
+        stats = {'lookups': 0}
+        lock = threading.Lock()
+        sys.setswitchinterval(1e-5)
+        fns = [BaseAdapterRegistry.register, BaseAdapterRegistry.unregister, BaseAdapterRegistry.subscribe,
+               BaseAdapterRegistry.unsubscribe, AdapterLookupBase.changed, AdapterLookupBase.add_extendor,
+               AdapterLookupBase.remove_extendor, Base.changed]
+        if hasattr(BaseAdapterRegistry, '_addValueToLeaf'):
+            fns.append(BaseAdapterRegistry._addValueToLeaf)
+        injected = yieldinj.install(fns, prob=0.35, seed=job['seed'] + ctx.case)
+
+        def ok_tag(v, g0, g1):
+            return g0 - 1 <= v.tag <= g1 + 1
+
+        def looker(k):
+            n = 0
+            local = []
+            r = chain[k % 3]
+            try:
+                while not stop[0] and not local:
+                    for s in specs:
+                        g0 = gen[0]
+                        v = r.lookup([s], IP2)
+                        if v is not None and not ok_tag(v, g0, gen[0]):
+                            local.append(('lookup', repr(v), g0, gen[0]))
+                        su = r.subscriptions([s], IP2)
+                        if len(su) > 2 or not all(ok_tag(x, g0, gen[0]) for x in su):
+                            local.append(('subscriptions', repr(su), g0, gen[0]))
+                        la = r.lookupAll([s], IP2)
+                        if len(la) > 1 or not all(ok_tag(x[1], g0, gen[0]) for x in la):
+                            local.append(('lookupAll', repr(la), g0, gen[0]))
+                        n += 3
+            except BaseException as e:      # noqa
+                import traceback
+                local.append(('exception', repr(e), ''.join(traceback.format_exception(type(e), e, e.__traceback__))[-1500:]))
+            with lock:
+                stats['lookups'] += n
+                errors.extend(local[:3])
+        ts = [threading.Thread(target=looker, args=(k,)) for k in range(nlook)]
+        for t in ts:
+            t.start()
+        prev = None
+        done = 0
+        deadline = time.time() + 240
+        try:
+            for g in range(1, nmut + 1):
+                if errors or time.time() > deadline:
+                    break
+                IQ = util.mkiface('IQ%d' % g, (IP2,), module=mod)
+                v = Val(g)
+                gen[0] = g
+                if prev is not None:
+                    pt, pq, pv = prev
+                    pt.unregister([IR0], pq, '')
+                    pt.unsubscribe([IR0], pq, pv)
+                ti = g % 3
+                target = chain[ti]
+                target.register([IR0], IQ, '', v)
+                below = chain[:ti + 1]
+                for r in below:
+                    s = specs[(g + len(below)) % len(specs)]
+                    ctx.ev()
+                    ctx.count('mutrace_post_mutation_probes')
+                    got = r.lookup([s], IP2)
+                    if got is not v:
+                        errors.append(('stale-after-register', flavour, repr(got), repr(v), 'level %d' % ti))
+                        break
+                target.subscribe([IR0], IQ, v)
+                for r in below:
+                    s = specs[(g + 1) % len(specs)]
+                    ctx.ev()
+                    got = r.subscriptions([s], IP2)
+                    if list(got) != [v]:
+                        errors.append(('stale-after-subscribe', flavour, repr(got), repr(v), 'level %d' % ti))
+                        break
+                prev = (target, IQ, v)
+                done += 1
+        except BaseException as e:      # noqa
+            errors.append(('mutator-exception', repr(e)))
+        stop[0] = True
+        for t in ts:
+            t.join(60)
+        sys.setswitchinterval(0.005)
+        if injected:
+            pts, n = yieldinj.fired()
+            yieldinj.uninstall()
+            ctx.count('yield_injections', n)
+            ctx.extra['preemption_points'] = sorted(set(map(tuple, ctx.extra.get('preemption_points', []))) | pts)
+            ctx.counters['distinct_preemption_points'] = len(ctx.extra['preemption_points'])
+        ctx.count('mutrace_mutations', done)
+        ctx.count('mutrace_lookups', stats['lookups'])
+        ctx.ev(max(1, stats['lookups']))
+        for e in errors[:3]:
+            ctx.violation('mutation-window-race', {'flavour': flavour, 'what': list(map(str, e))}, abort=False)
+        ctx.shape(('mutrace', flavour, nlook), nontrivial=True)
+
+
 def run_case(ctx, rng, job):
     part = job.get('part', 'script')
     if part == 'subrace':
         return run_subrace(ctx, rng, job)
+    if part == 'mutrace':
+        return run_mutrace(ctx, rng, job)
     if part == 'script':
         run_script(ctx, rng, job)
     elif part == 'leak':
